@@ -13,7 +13,8 @@ THEOREMS = ["CKT.C16." + t for t in ["exec_frame", "frame_sound", "all_framed", 
 RULE = ("random circuits on 2-4 qubits mixing standard gates, payload-carrying UnitaryGates, pre-placed placeholders over constant and parametrised "
         "bases, wire-cut markers; every public transformation audited: deep fingerprints of all arguments before/after, identity of mutable objects "
         "between arguments and results (references kept alive), the same object returned twice, objects shared between the results of two calls, "
-        "destructive edits through the result; compared with the model's prediction (framed; sharing classes as a function of the input's features); "
+        "destructive edits through the result; sampler results of both interfaces incl. SamplerV1 quasi-distributions that do not sum to one "
+        "(truncated, mitigated with negative entries, rescaled, raw counts); compared with the model's prediction (framed; sharing classes as a function of the input's features); "
         "histories (oracle only): chains cut_gates / cut_wires / partition_circuit_qubits over circuits with pre-placed placeholders, wire-cut markers and "
         "symbolic standard / composite / evolution gates, the last result edited through decompose_qpd_instructions(inplace=True) or "
         "assign_parameters(inplace=True): every earlier circuit unchanged, later calls as on freshly built twins")
@@ -71,6 +72,15 @@ _RESULTS = [
     {"fmt": "v2", "single": True, "subobs": [["XY", "ZI"]], "nqpd": [1], "ncoef": 4, "shots": 5},
     {"fmt": "v1", "single": False, "subobs": [["ZI", "IX"], ["Y", "Z"]], "nqpd": [12, 9], "ncoef": 3, "shots": 6},
     {"fmt": "v1", "single": True, "subobs": [["ZZ", "XI", "II"]], "nqpd": [10], "ncoef": 2, "shots": 4},
+    # SamplerV1 quasi-distributions that do NOT sum to one ("weights"): rare outcomes dropped ("truncated": the smallest entries of each
+    # distribution are removed, the rest is left as it was), error-mitigated quasi-probabilities with negative entries ("mitigated"),
+    # a distribution rescaled as a whole ("scaled": every entry times 0.5 / times 3), a sum that is off by 1e-6 only ("near"), and raw
+    # counts instead of frequencies ("counts").  The reconstruction reads them (the estimator is linear in them); it must not rewrite them.
+    {"fmt": "v1", "single": False, "subobs": [["ZI", "IX"], ["Y", "Z"]], "nqpd": [3, 2], "ncoef": 3, "shots": 9, "weights": ["truncated", None]},
+    {"fmt": "v1", "single": True, "subobs": [["ZZ", "XI", "II"]], "nqpd": [2], "ncoef": 2, "shots": 7, "weights": ["mitigated"]},
+    {"fmt": "v1", "single": False, "subobs": [["ZZ", "IX", "YI"], ["X", "I"]], "nqpd": [1, 4], "ncoef": 2, "shots": 6, "weights": ["scaled", "scaled3"]},
+    {"fmt": "v1", "single": False, "subobs": [["Z", "I"], ["ZY", "IY"]], "nqpd": [2, 9], "ncoef": 4, "shots": 5, "weights": [None, "near"]},
+    {"fmt": "v1", "single": True, "subobs": [["XY", "ZI"]], "nqpd": [1], "ncoef": 3, "shots": 8, "weights": ["counts"]},
 ]
 
 # HISTORIES (oracle only; the ownership model has no notion of a sequence of calls): a circuit goes through a chain of public calls, each
@@ -239,8 +249,9 @@ def _results(payload):
     subobs = {l: PauliList(s) for l, s in zip(labels, spec["subobs"])}
     coefs = [(rng.choice([0.5, -0.5, 0.75, -1.25, 1.0]), WeightType.EXACT) for _ in range(spec["ncoef"])]
     results = {}
-    for l, nqpd in zip(labels, spec["nqpd"]):
+    for li, (l, nqpd) in enumerate(zip(labels, spec["nqpd"])):
         exps = []
+        how = (spec.get("weights") or [None] * len(labels))[li]
         for _ in range(spec["ncoef"]):
             for cog in ObservableCollection(subobs[l]).groups:
                 nb = max(1, len(cog.pauli_indices))
@@ -254,11 +265,36 @@ def _results(payload):
                     qd = {}
                     for o, q in shots:
                         qd[o | (q << nb)] = qd.get(o | (q << nb), 0.0) + 1.0 / len(shots)
-                    exps.append(QuasiDistribution(qd))
+                    exps.append(QuasiDistribution(_reweight(qd, how, len(shots), rng)))
         results[l] = PrimitiveResult(exps) if spec["fmt"] == "v2" else SamplerResult(exps, [{} for _ in exps])
     if spec["single"]:
         return results["A"], coefs, subobs["A"]
     return results, coefs, subobs
+
+
+def _reweight(qd, how, shots, rng):
+    """the quasi-distribution a caller hands in when it is not a plain normalised frequency table (`how` = None: unchanged)"""
+    if how is None:
+        return qd
+    if how == "truncated":      # the rarest outcomes are dropped, the others keep their value
+        if len(qd) > 1:
+            low = min(qd.values())
+            kept = {k: v for k, v in qd.items() if v > low}
+            qd = kept or dict(list(qd.items())[:-1])
+        else:
+            qd = {k: v * 0.875 for k, v in qd.items()}
+        return qd
+    if how == "mitigated":      # quasi-probabilities after a mitigation step: some negative, the sum is not one
+        return {k: (v * 1.375 if j % 2 == 0 else -v * 0.25) for j, (k, v) in enumerate(sorted(qd.items()))}
+    if how == "scaled":
+        return {k: v * 0.5 for k, v in qd.items()}
+    if how == "scaled3":
+        return {k: v * 3.0 for k, v in qd.items()}
+    if how == "near":
+        return {k: v * (1.0 + 1e-6) for k, v in qd.items()}
+    if how == "counts":
+        return {k: float(round(v * shots)) for k, v in qd.items()}
+    raise ValueError("unknown weights " + str(how))
 
 
 def _setup(payload):
@@ -683,6 +719,25 @@ def _confirm_alias(payload):
     return msg
 
 
+def _which_dist(payload):
+    """for a reconstruction from SamplerV1 results: the first quasi-distribution that reads differently after the call"""
+    if payload.get("results") is None or payload["results"].get("fmt") != "v1":
+        return ""
+    try:
+        f, args, _ = _setup(payload)
+        res = args[0] if isinstance(args[0], dict) else {"(single result)": args[0]}
+        before = {l: [dict(q) for q in r.quasi_dists] for l, r in res.items()}
+        f(*args)
+        for l, r in res.items():
+            for k, (a, q) in enumerate(zip(before[l], r.quasi_dists)):
+                if a != dict(q):
+                    return (f": quasi-distribution {k} of partition {l!r} (sum {sum(a.values())!r}) was {a} before the call and is {dict(q)} afterwards"
+                            f" (weights handed in: {payload['results'].get('weights')})")
+    except Exception:
+        pass
+    return ""
+
+
 def oracle(kind, payload):
     if kind == "history":
         try:
@@ -699,7 +754,8 @@ def oracle(kind, payload):
         return f"function={payload['fn']} audit crashed: {type(ex).__name__}: {ex}"
     fn = payload["fn"]
     if ob["mutated"]:
-        return f"function={fn} class=MUTATION: the call modified its arguments" + (f" (argument(s) {ob['changed']} differ from their snapshot)" if ob.get("changed") else "")
+        return (f"function={fn} class=MUTATION: the call modified its arguments" + (f" (argument(s) {ob['changed']} differ from their snapshot)" if ob.get("changed") else "")
+                + _which_dist(payload))
     if ob["dup"]:
         return f"function={fn} class=DUP: the same circuit object is returned twice (editing one returned circuit edits another)"
     if ob["alias"]:
